@@ -26,9 +26,15 @@ type sym struct {
 	sid  uint64
 	ctl  bool
 	done bool
+	alt  bool // alternative payload: an empty body (metadata packets)
 }
 
-func (s sym) String() string { return fmt.Sprintf("k%d/s%d/c%v/d%v", s.kind, s.sid, s.ctl, s.done) }
+func (s sym) String() string {
+	if s.alt {
+		return fmt.Sprintf("k%d/s%d/c%v/d%v/empty", s.kind, s.sid, s.ctl, s.done)
+	}
+	return fmt.Sprintf("k%d/s%d/c%v/d%v", s.kind, s.sid, s.ctl, s.done)
+}
 
 func alphabet(full bool) []sym {
 	var out []sym
@@ -45,10 +51,13 @@ func alphabet(full bool) []sym {
 					if !full && c && !d {
 						continue
 					}
-					out = append(out, sym{k, s, c, d})
+					out = append(out, sym{k, s, c, d, false})
 				}
 			}
 		}
+	}
+	for _, s := range sids {
+		out = append(out, sym{7, s, false, true, true})
 	}
 	return out
 }
@@ -67,6 +76,9 @@ func payload(s sym) []byte {
 		binary.BigEndian.PutUint64(b, 1<<63)
 		return append(b, 'e')
 	case 7:
+		if s.alt {
+			return nil
+		}
 		if s.ctl {
 			return []byte{0x0a, 0xff, 0xff, 0xff, 0xff, 0x0f, 0x0a} // hostile length
 		}
@@ -184,5 +196,5 @@ func plans(tier string) []mc.Plan {
 
 func init() {
 	mc.Register(&mc.Check{ID: "C13", Plans: plans, Budget: map[string]int{"quick": 120, "thorough": 1500},
-		Notes: "C13 (engine part): a real drpcmanager (inside drpcserver.ServeOne with an echo handler, and inside drpcconn with a call in flight) receives every sequence of up to 2 (3) packets over kind 0..8 x stream id {0,1,2} x control x done (108 symbols) and up to 3 (4) over a reduced 48-symbol alphabet, then the peer disconnects; oracle: no panic, every call and ServeOne return, transport closed once, no library goroutine left."})
+		Notes: "C13 (engine part): a real drpcmanager (inside drpcserver.ServeOne with an echo handler, and inside drpcconn with a call in flight) receives every sequence of up to 2 (3) packets over kind 0..8 x stream id {0,1,2} x control x done plus empty-body metadata packets (111 symbols) and up to 3 (4) over a reduced 50-symbol alphabet, then the peer disconnects; oracle: no panic, every call and ServeOne return, transport closed once, no library goroutine left."})
 }
